@@ -39,6 +39,7 @@ class Contract:
         self.target = self.attrs.get("target")
         self.types = self.attrs.get("types", {})
         self.result = self.attrs.get("result")
+        self.result_switch = self.attrs.get("result_switch")  # (param, {type tag: spec}): result spec by the argument's tag
         self.assumed = bool(self.attrs.get("assumed", False))
         self.mode = self.attrs.get("mode", "R")
         self.params = self.attrs.get("params")  # for externals: parameter names (with defaults None)
@@ -195,7 +196,13 @@ class Verifier:
                 # the result is given as an expression of the arguments (functional contract)
                 rv = ver.value_of(ex, c, "result_value", values, p)
                 return [(p, rv)]
-            res = sb.make(c.result, "res_" + c.name) if c.result else NONE
+            rspec = c.result
+            if c.result_switch:
+                arg = values.get(c.result_switch[0])
+                tagv = arg.fields.get("type") if isinstance(arg, Obj) else None
+                if isinstance(tagv, Str) and tagv.concrete and tagv.c in c.result_switch[1]:
+                    rspec = c.result_switch[1][tagv.c]
+            res = sb.make(rspec, "res_" + c.name) if rspec else NONE
             for w in sb.wf:
                 ex.bg.append(w)
             if "ensures" in c.funcs:
@@ -267,6 +274,11 @@ class Verifier:
             a = fnode.args
             params = [x.arg for x in list(a.posonlyargs) + list(a.args) + list(a.kwonlyargs)]
         values = {}
+        if not is_class:
+            if a.kwarg is not None:
+                values[a.kwarg.arg] = Dct([])
+            if a.vararg is not None:
+                values[a.vararg.arg] = Tup([])
         for nm in params:
             if fixed and nm in fixed:
                 values[nm] = fixed[nm](sb) if callable(fixed[nm]) else fixed[nm]
@@ -308,8 +320,11 @@ class Verifier:
                     vals = dict(values)
                     vals["result"] = res
                     goal = self.pred(ex, c, "ensures", vals, Path(o.cond))
-                    obls.append(Obligation(f"{base}/post@L{o.line}#{k}", "post", bgx + list(ex.bg[len(bgx):]) + o.cond + [z3.Not(goal)],
-                                           inputs=inputs, result=res, meta=dict(contract=cname, line=o.line, mode=c.mode)))
+                    parts = _conjuncts(goal)
+                    for j, part in enumerate(parts):
+                        sfx = f".{j}" if len(parts) > 1 else ""
+                        obls.append(Obligation(f"{base}/post@L{o.line}#{k}{sfx}", "post", list(ex.bg) + o.cond + [z3.Not(part)],
+                                               inputs=inputs, result=res, meta=dict(contract=cname, line=o.line, mode=c.mode)))
                 obls.append(Obligation(f"{base}/cover-return@L{o.line}#{k}", "cover", list(ex.bg) + o.cond, expect="sat",
                                        inputs=inputs, meta=dict(contract=cname, line=o.line)))
             elif o.kind == "raise":
@@ -357,3 +372,15 @@ class Verifier:
                            expect=expect, inputs=values, meta=dict(lemma=fname, mode=mode))] + side
 
 
+
+
+def _conjuncts(goal, limit=24):
+    """top-level conjuncts of a goal (each becomes its own, smaller obligation)"""
+    out, stack = [], [goal]
+    while stack:
+        g = stack.pop(0)
+        if z3.is_and(g) and len(out) + len(stack) + g.num_args() <= limit:
+            stack = list(g.children()) + stack
+        else:
+            out.append(g)
+    return out
